@@ -535,6 +535,15 @@ func (m *monC07) Final(w *World) {
 				continue
 			}
 			st := shortState(r.Current)
+			// a state machine whose last store write returned an error stops where it is (the
+			// event its action produced is dropped; later events find a state that does not take
+			// them) until the next restart - a cause of its own, with its own signature
+			for _, x := range w.Obs {
+				if x.Kind == "store.write" && x.Node == oi.node && x.Store != nil && x.Store.SwapID == r.SwapID && x.Store.Failed && x.Inc == w.Nodes[oi.node].inc {
+					st += ":frozen-after-store-error"
+					break
+				}
+			}
 			w.Violate("C07", "csv-matured-no-refund:"+st, "node %d: opening output %.12s:%d is %d blocks deep (CSV %d), the invoice is unpaid, and no refund was broadcast after the heal phase (record state: %s)", oi.node, so.TxID, so.Vout, c.Confirmations(so.TxID), so.CSV, st)
 		}
 	}
